@@ -1008,13 +1008,16 @@ func (repo *Repository) consolidate(ctx context.Context) error {
 
 	newBranches := Branches{newMainBranch}
 
-	// Reconnect previously oldest branch to the new main branch.
-	newOldestBranch, err := oldestBranch.Truncate(ctx, repo.store, newMainBranch, linkHeight)
-	if err != nil {
-		return errors.Wrap(err, "truncate previous oldest to main")
-	}
+	// Reconnect previously oldest branch to the new main branch. When it ends at the link height
+	// (headers above were removed as invalid) nothing of it remains outside the new main branch.
+	if oldestBranch.Height() > linkHeight {
+		newOldestBranch, err := oldestBranch.Truncate(ctx, repo.store, newMainBranch, linkHeight)
+		if err != nil {
+			return errors.Wrap(err, "truncate previous oldest to main")
+		}
 
-	newBranches = append(newBranches, newOldestBranch)
+		newBranches = append(newBranches, newOldestBranch)
+	}
 
 	// Sort by parent height so they can be properly connected to the new main branch.
 	sort.Sort(repo.branches)
